@@ -139,11 +139,10 @@ VH_AREA(alg) {
                     case 4: {  // safe_insert(index, circuit)
                         hist += " insert_circuit";
                         size_t idx = rng.below(pool[i]->operations.size() + 1);
-                        if (i == j) break;
-                        pool[i]->safe_insert(idx, *pool[j]);
-                        if (kill_src) refresh(j);
+                        pool[i]->safe_insert(idx, *pool[j]);   // i == j: a circuit inserted into itself
+                        if (kill_src && j != i) refresh(j);
                         out_q("alg insert " + std::to_string(idx) + " " + wa + " " + wb + " " + wire_circuit(*pool[i]), "ok");
-                        st.hit("op.insert_circuit");
+                        st.hit(i == j ? "op.insert_circuit.self" : "op.insert_circuit");
                         break;
                     }
                     case 5: {  // safe_insert(index, instruction) with caller-owned data that dies right after
@@ -167,7 +166,6 @@ VH_AREA(alg) {
                     }
                     case 6: {  // safe_insert_repeat_block with a caller-owned tag
                         hist += " insert_repeat_block";
-                        if (i == j) break;
                         size_t idx = rng.below(pool[i]->operations.size() + 1);
                         uint64_t n = 1 + rng.below(3);
                         auto tag = std::make_unique<std::string>("blocktag" + std::to_string(rng.below(100)));
@@ -175,21 +173,21 @@ VH_AREA(alg) {
                         pool[i]->safe_insert_repeat_block(idx, n, *pool[j], *tag);
                         tag.reset();
                         auto junk = std::make_unique<std::string>("XXXXXXXXXXXXXXXXXXXXXXXX");
-                        if (kill_src) refresh(j);
+                        if (kill_src && j != i) refresh(j);
                         out_q("alg insertrep " + std::to_string(idx) + " " + std::to_string(n) + " " + wa + " " + wb + " " + wire_circuit(*pool[i]), "ok");
-                        st.hit("op.insert_repeat_block");
+                        st.hit(i == j ? "op.insert_repeat_block.self" : "op.insert_repeat_block");
                         break;
                     }
                     case 7: {  // append_repeat_block
                         hist += " append_repeat_block";
-                        if (i == j || pool[j]->operations.empty()) break;
+                        if (pool[j]->operations.empty()) break;
                         uint64_t n = 1 + rng.below(3);
                         auto tag = std::make_unique<std::string>("bt" + std::to_string(rng.below(100)));
-                        pool[i]->append_repeat_block(n, *pool[j], *tag);
+                        pool[i]->append_repeat_block(n, *pool[j], *tag);   // i == j: a circuit as the body of its own new block
                         tag.reset();
-                        if (kill_src) refresh(j);
+                        if (kill_src && j != i) refresh(j);
                         out_q("alg insertrep " + std::to_string(pool[i]->operations.size() - 1) + " " + std::to_string(n) + " " + wa + " " + wb + " " + wire_circuit(*pool[i]), "ok");
-                        st.hit("op.append_repeat_block");
+                        st.hit(i == j ? "op.append_repeat_block.self" : "op.append_repeat_block");
                         break;
                     }
                     case 8: {  // py_get_slice
